@@ -16,10 +16,11 @@
    which has no point with y = 0).  ec_group is a HYPOTHESIS for the 17 shipped curves
    (together with primality of p, which it contains) and is PROVED by enumeration for
    the five small curves of Proofs/EcSmall.v. *)
-From Coq Require Import List Bool ZArith Znumtheory.
-From Bec2 Require Import Base.Result Base.Modp Gen.EcFormulas Gen.Curves Model.Ec
+From Coq Require Import List Bool NArith ZArith Znumtheory.
+From Coq Require Import Init.Byte.
+From Bec2 Require Import Base.Result Base.Bytes Base.Modp Gen.EcFormulas Gen.Curves Model.Ec
   Proofs.EcFormulaProofs Proofs.EcNafProofs Proofs.EcMulProofs Proofs.EcMulAddProofs Proofs.EcTotalProofs
-  Proofs.EcdhGuardProofs   Proofs.EcParams
+  Proofs.EcdhGuardProofs Model.P256Plugin Proofs.P256PluginProofs   Proofs.EcParams
   Proofs.EcSmall Proofs.EcSmallMul Proofs.EcSmallMulAdd Proofs.EcSmallEcdh.
 Import ListNotations.
 Open Scope Z_scope.
@@ -376,6 +377,58 @@ Print Assumptions C17_params.
 Theorem C17_order_partial : order_check SECP112r1 = true.
 Proof. exact order_SECP112r1. Qed.
 Print Assumptions C17_order_partial.
+
+(* ===================================================================== *)
+(* 3b. The registered ECC plug-in of the BEC2 layer (NIST256p) in the shape Model/Bec2.v
+   abstracts (Model/P256Plugin.v): the three facts Proofs/Bec2Proofs.v assumes (C02, C09),
+   for ALL byte strings d, e, under the named hypotheses for P-256: the group law
+   (ec_group), G in the group, n*G = 0, k*G <> 0 for 0 < k < n, group points on the curve. *)
+Theorem C17_p256_plugin_pub_len : forall d, blen (p256_pub_of d) = 64%N.
+Proof. exact pub_len_all. Qed.
+Print Assumptions C17_p256_plugin_pub_len.
+
+Theorem C17_p256_plugin_pub_valid : forall inG gadd gneg,
+  ec_group p256_p p256_a inG gadd gneg -> inG p256_Gpt ->
+  zmul gadd gneg p256_n p256_Gpt = None ->
+  (forall k, 0 < k < p256_n -> zmul gadd gneg k p256_Gpt <> None) ->
+  (forall q, inG (Some q) -> on_curve p256_p p256_a p256_b q) ->
+  forall d, p256_valid_pub (p256_pub_of d) = true.
+Proof. exact p256_pub_valid. Qed.
+Print Assumptions C17_p256_plugin_pub_valid.
+
+Theorem C17_p256_plugin_ecdh_comm : forall inG gadd gneg,
+  ec_group p256_p p256_a inG gadd gneg -> inG p256_Gpt ->
+  zmul gadd gneg p256_n p256_Gpt = None ->
+  (forall k, 0 < k < p256_n -> zmul gadd gneg k p256_Gpt <> None) ->
+  (forall q, inG (Some q) -> on_curve p256_p p256_a p256_b q) ->
+  forall d e, p256_ecdh d (p256_pub_of e) = p256_ecdh e (p256_pub_of d).
+Proof. exact p256_ecdh_comm. Qed.
+Print Assumptions C17_p256_plugin_ecdh_comm.
+
+(* byte strings that are admissible keys (1 <= value <= n-1, the only ones the plug-in ever
+   holds) are read as their value; everything else is folded into that range *)
+Theorem C17_p256_plugin_scalar : forall d,
+  1 <= scalar_of d <= p256_n - 1 /\ (scalar_ok d -> scalar_of d = scalar_raw d).
+Proof. intro d. split; [apply scalar_range | apply scalar_of_ok]. Qed.
+Print Assumptions C17_p256_plugin_scalar.
+
+(* rejection clause (no hypothesis): wrong length, a coordinate >= p, off the curve, all zero *)
+Theorem C17_p256_plugin_rejects : forall raw,
+  (blen raw <> 64%N \/ p256_p <= raw_x raw \/ p256_p <= raw_y raw \/
+   ~ on_curve p256_p p256_a p256_b (raw_x raw, raw_y raw)) ->
+  p256_valid_pub raw = false.
+Proof. exact valid_pub_rejects. Qed.
+Print Assumptions C17_p256_plugin_rejects.
+
+Theorem C17_p256_plugin_accept_sound : forall raw, p256_valid_pub raw = true ->
+  blen raw = 64%N /\ 0 <= raw_x raw < p256_p /\ 0 <= raw_y raw < p256_p /\
+  on_curve p256_p p256_a p256_b (raw_x raw, raw_y raw).
+Proof. exact valid_pub_sound. Qed.
+Print Assumptions C17_p256_plugin_accept_sound.
+
+Theorem C17_p256_plugin_zero : p256_valid_pub (zeros 64) = false.
+Proof. exact valid_pub_zero. Qed.
+Print Assumptions C17_p256_plugin_zero.
 
 (* ===================================================================== *)
 (* 4. Small prime-order curves: everything closed, no hypothesis *)
